@@ -65,7 +65,26 @@ func unplaced(kinds []string, prefix int, rows []row, n int) *rel {
 	return &rel{Kinds: kinds, Prefix: prefix, Shards: sh}
 }
 
-func keyStr(r row, prefix int) string { return progRowStr(r[:prefix]) }
+// keyStr is the identity of a key under Go's == on the key columns: +0 and -0 are the same key.
+func keyStr(r row, prefix int) string { return keyEqStr(r, prefix) }
+
+func keyEqStr(r row, prefix int) string {
+	k := make(row, prefix)
+	for i := 0; i < prefix; i++ {
+		k[i] = r[i]
+		switch x := r[i].(type) {
+		case float64:
+			if x == 0 {
+				k[i] = float64(0)
+			}
+		case float32:
+			if x == 0 {
+				k[i] = float32(0)
+			}
+		}
+	}
+	return progRowStr(k)
+}
 
 // evalSpec evaluates a spec; args are the relations of the Func's Result arguments.
 func evalSpec(sp *Spec, args []*rel) (res *rel, all []*rel, err error) {
@@ -82,7 +101,7 @@ func evalSpec(sp *Spec, args []*rel) (res *rel, all []*rel, err error) {
 		switch n.Op {
 		case "arg":
 			rels[ni] = args[n.Arg]
-		case "const":
+		case "const", "keys":
 			rels[ni] = &rel{Kinds: n.Out, Prefix: 1, Shards: constSplit(sourceRows(n, 0), n.Shards), Ordered: true, Placed: true}
 		case "readerfunc":
 			sh := make([][]row, n.Shards)
